@@ -100,7 +100,9 @@ GENERAL = ["<p>", "</p>", "<div>", "</div>", "<b>", "</b>", "<i>", "</i>", "<a h
            "</foreignObject></svg>", "\u00e9", "<img src=i a=1 a=2>", "<marquee>", "<object>", "</object>", "<dd>", "<dt>",
            "<image>", "<plaintext>", "<xmp>", "</xmp>", "<iframe>", "</iframe>", "<hr>", "<listing>\n", "<li>", "<dl>",
            "<meta charset=x>", "<link>", "<base>", "<svg><title>", "<svg><desc><b>", "</svg>", "</math>", "<math><mtext><i>",
-           "<svg><script>s</script>", "<svg/>", "<br/>", "</br>", "<p/>", "\0", "<![CDATA[x]]>", "<svg><![CDATA[y]]>"]
+           "<svg><script>s</script>", "<svg/>", "<br/>", "</br>", "<p/>", "\0", "<![CDATA[x]]>", "<svg><![CDATA[y]]>",
+           # constructs whose content is empty (an empty run of characters must never become a text node)
+           "<svg><![CDATA[]]></svg>", "<math><mi><![CDATA[]]>", "<svg><![CDATA[]]>x<![CDATA[]]>", "<!---->", "<svg><![CDATA[]]><![CDATA[ ]]>"]
 TABLE = ["<table>", "</table>", "<tr>", "</tr>", "<td>", "</td>", "<th>", "<tbody>", "</tbody>", "<thead>", "<tfoot>",
          "<caption>", "</caption>", "<colgroup>", "<col>", "foster", " ", "<b>", "</b>", "<input type=hidden>", "<input>",
          "<form>", "</form>", "<select>", "<template>", "</template>", "<style>x</style>", "<script></script>", "<a>", "<p>",
